@@ -406,6 +406,13 @@ func checkOps(caseNo int64) {
 	A, mA := mk()
 	B, mB := mk()
 	C, mC := mk()
+	// replica D restarts: at seeded points it persists its set the way a node does
+	// (State.Save -> LoadState) and goes on with the reloaded set, copied as ExecBlock does.
+	D, mD := mk()
+	restartAt := map[int]bool{}
+	for i := 0; i < 1+rng.Intn(3); i++ {
+		restartAt[rng.Intn(nops)] = true
+	}
 	var frozenSets []*frozen
 	ctx := func() interface{} { return map[string]interface{}{"powers": powers, "ops": ops, "case": caseNo} }
 	for i, o := range ops {
@@ -417,6 +424,16 @@ func checkOps(caseNo int64) {
 		applyOp(A, mA, o)
 		applyOp(B, mB, o)
 		applyOp(C, mC, o)
+		if restartAt[i] && len(D.Validators) > 0 {
+			re, err := reloadState(D, false)
+			if err != nil {
+				run.Violation("reload-error-state", fmt.Sprintf("round trip failed before op %d: %v", i, err), ctx())
+				return
+			}
+			D = re.Copy().Copy()
+			run.Count("ops_restarts", 1)
+		}
+		applyOp(D, mD, o)
 		run.Count("ops_"+o.Kind, 1)
 		if !checkStructure(A, mA, ctx) {
 			return
@@ -443,6 +460,16 @@ func checkOps(caseNo int64) {
 		}
 		if !bytes.Equal(A.Hash(), B.Hash()) || !bytes.Equal(A.Hash(), C.Hash()) {
 			run.Violation("replica-hash-differs", fmt.Sprintf("equal operation sequences give different Hash() after op %d", i), ctx())
+			return
+		}
+		if !checkStructure(D, mD, ctx) {
+			return
+		}
+		if len(A.Validators) == 0 {
+			continue
+		}
+		if sa, sd := snapshot(A), snapshot(D); !bytes.Equal(A.Hash(), D.Hash()) || !sameAccums(sa.Accums, sd.Accums) || sa.Proposer != sd.Proposer {
+			run.Violation("restarted-replica-differs", fmt.Sprintf("a replica that persisted and reloaded its set (State.Save/LoadState) differs from the running one after op %d (%s): running proposer %s accums %v, restarted proposer %s accums %v", i, o.Kind, sa.Proposer, sa.Accums, sd.Proposer, sd.Accums), ctx())
 			return
 		}
 		if len(A.Validators) > 0 {
